@@ -242,6 +242,8 @@ class Interp(object):
                 if j < 0:
                     raise PyRaise('TypeError', 'missing argument %s' % p)
                 env[p] = self.eval(defaults[j], {}, globs)
+        if kwargs:
+            raise PyRaise('TypeError', 'unexpected keyword argument %s' % sorted(kwargs)[0])
         if a.vararg:
             env[a.vararg.arg] = tuple(vals[len(params):])
         elif len(vals) > len(params):
@@ -266,7 +268,14 @@ class Interp(object):
                 return v != 0
             raise Unsupported('truth of %s' % v.sort())
         if isinstance(v, SObj):
-            raise Unsupported('truth of object')
+            # Python: __bool__, else __len__() != 0, else True
+            if find_method(v.cls, '__bool__'):
+                return self.truth(self.call_method(v, '__bool__', []))
+            if find_method(v.cls, '__len__'):
+                return self.num(self.call_method(v, '__len__', [])) != 0
+            if hasattr(v.cls, '__bool__') or hasattr(v.cls, '__len__'):
+                raise Unsupported('truth of object with a non-Python __bool__/__len__')
+            return True
         return bool(v)
 
     def exec_stmt(self, s, env, globs):
@@ -1006,14 +1015,14 @@ class Interp(object):
         c = self.contracts.get(qn)
         if c is None:
             raise Unsupported('no contract for callee %s' % qn)
-        if kwargs:
+        if kwargs and not c.inline:
             raise Unsupported('keyword call to contracted callee %s' % qn)
         self.calls.append(qn)
         if c.inline:
             mod, dotted = qn.split(':')
             path = inspect.getsourcefile(sys.modules[mod])
             fnode, _ = FuncSrc.find(path, dotted)
-            return self.run_function(fnode, args, vars(sys.modules[mod]))
+            return self.run_function(fnode, args, vars(sys.modules[mod]), kwargs or None)
         ctx = self.ctx
         pre = c.pre(ctx, *args)
         self.oblige('callpre[%s]@%s' % (qn.split(':')[1], getattr(node, 'lineno', '?')), pre, node)
